@@ -451,6 +451,49 @@ func (ck *Check) findInvokeChain(chain []*ssa.Function, recv *Term, method strin
 			}
 		}
 	}
+	// … or in a sizing helper a frame of the chain calls with the receiver among its arguments
+	// (`planNodesToAdd(group, delta, max)`), read with its parameters bound at that call
+	for _, f := range chain {
+		fctx := ck.fnChainCtx(chain, f)
+		if fctx == nil {
+			continue
+		}
+		for _, ci := range callsIn(f, nil) {
+			c, ok := ci.(*ssa.Call)
+			if !ok {
+				continue
+			}
+			h := c.Common().StaticCallee()
+			if h == nil || !ck.P.inRepo(h) || h.Blocks == nil || h == f {
+				continue
+			}
+			inChain := false
+			for _, g := range chain {
+				if g == h {
+					inChain = true
+				}
+			}
+			if inChain {
+				continue
+			}
+			args := make([]*Term, len(c.Common().Args))
+			handed := false
+			for i, av := range c.Common().Args {
+				args[i] = fctx.Term(av)
+				if args[i].Key() == recv.Key() {
+					handed = true
+				}
+			}
+			if !handed {
+				continue
+			}
+			ch := fctx.child(h, c, args)
+			ch.depth = 0
+			if t := ck.findInvoke(ch, h, recv, method); t != nil {
+				return t
+			}
+		}
+	}
 	return nil
 }
 
